@@ -30,7 +30,8 @@ ID = "C16"
 LEVEL = "exploration"
 RULE = ("stateful generation: sends with mixed lifetimes and clock advances on a socket whose connection attempts are "
         "refused, then a connection; also never-opened / closed sockets.  Non-trivial: the history reached 10 pending "
-        "entries, or an entry expired before the connection, or a send hit a closed socket; distinct by operation trace")
+        "entries, or an entry expired before the connection, or a send hit a closed socket; distinct by operation trace"
+        " Also: a write failure while connected followed by a burst of sends from a connection subscriber (the held retry counts; it may be the only short-lived entry).")
 ASSUMPTIONS = ["a message whose lifetime has exactly elapsed (now == accept + lifetime) counts as expired (statement: 'never at or after its lifetime has elapsed')"]
 
 LIFETIMES = [0.125, 1.0, 2.0, 30.0]
